@@ -481,6 +481,24 @@ func c10genpair(c *core.Check, st *tmpl.Static) {
 				}
 			}
 		}
+		// a variable declared `var k string` must be filled by the string reader and `var b []byte` by the binary reader
+		agg.check("read-var-type-matches-reader", fastgoRel)
+		decl := map[string]string{}
+		for _, ln := range rd {
+			f := strings.Fields(strings.TrimSpace(ln))
+			if len(f) == 3 && f[0] == "var" {
+				decl[f[1]] = f[2]
+			}
+			if i := strings.Index(ln, ", l, err = x.Read"); i > 0 {
+				v := strings.TrimSpace(ln[:i])
+				reader := ln[i+len(", l, err = x."):]
+				reader = reader[:strings.Index(reader, "(")]
+				switch {
+				case decl[v] == "string" && reader == "ReadBinary", decl[v] == "[]byte" && reader == "ReadString":
+					agg.fail("read-var-type-matches-reader", fastgoRel, fmt.Sprintf("under [%s] shape %s: %s is declared %s but filled by x.%s: the generated FastRead does not compile (a binary map key is a string in Go)", val, sh, v, decl[v], reader))
+				}
+			}
+		}
 		// byte counts
 		agg.check("blength-equals-append", fastgoRel+"/genBLengthField~genFastAppendField")
 		cb, eb := sizeOfStmts(bs, "blength", loopVars{}, 0)
@@ -534,6 +552,7 @@ func c10genpair(c *core.Check, st *tmpl.Static) {
 		"emitters-interpreted":             "the emitters stay inside the interpreted Go subset",
 		"emitted-code-parses":              "emitted statements parse as Go",
 		"emitted-code-typechecks":          "emitted statements declare no unused or duplicate variables",
+		"read-var-type-matches-reader":     "string variables are filled by ReadString, []byte variables by ReadBinary",
 		"blength-equals-append":            "symbolic byte count of BLength = bytes FastAppend writes",
 		"append-header":                    "3-byte header (spec wire type, id high, id low)",
 		"read-consumes-what-append-writes": "FastRead's wire-event tree equals FastAppend's",
